@@ -1,6 +1,7 @@
 #include "pch.h"
 
 #include "parser/parser.h"
+#include "verif_hook.h"
 
 extern bool pedantic;
 
@@ -34,6 +35,11 @@ Node *Parser::parseLogicalExpression() {
 }
 
 Node *Parser::parseComparisonExpression() {
+#ifdef PSEUDOENGINE2_VERIF
+    verif::DepthGuard verifNest(verif::budget().usedNest);
+    if (verif::budget().usedNest > verif::budget().nest)
+        throw PSC::SyntaxError(*currentToken, "VERIF budget exhausted: nesting");
+#endif
     if (currentToken->type == TokenType::NOT) {
         const Token &op = *currentToken;
         advance();
@@ -129,6 +135,11 @@ Node *Parser::parseFactor() {
 }
 
 Node *Parser::parseAtom() {
+#ifdef PSEUDOENGINE2_VERIF
+    verif::DepthGuard verifNest(verif::budget().usedNest);
+    if (verif::budget().usedNest > verif::budget().nest)
+        throw PSC::SyntaxError(*currentToken, "VERIF budget exhausted: nesting");
+#endif
     if (currentToken->type == TokenType::INTEGER) {
         return parseLiteral<IntegerNode>();
     } else if (currentToken->type == TokenType::REAL) {
